@@ -9,6 +9,7 @@ package main
 // influence the verdict on /repo itself.
 
 import (
+	"context"
 	"encoding/json"
 	"fmt"
 	"os"
@@ -18,6 +19,7 @@ import (
 	"strconv"
 	"strings"
 	"sync"
+	"time"
 )
 
 func abs(x int) int {
@@ -258,10 +260,17 @@ func runThoroughMutants(res *Result, prop, repo, verif string) {
 			sem <- struct{}{}
 			defer func() { <-sem }()
 			args := append([]string{"-prop", prop, "-repo", repo, "-verif", verif, "-no-evidence", "-tier", "quick"}, mr.Args...)
-			cmd := exec.Command(os.Args[0], args...)
+			// a variant the prover cannot finish in six minutes is recorded as such (and is not silent)
+			ctx, cancel := context.WithTimeout(context.Background(), 6*time.Minute)
+			defer cancel()
+			cmd := exec.CommandContext(ctx, os.Args[0], args...)
 			cmd.Env = append(os.Environ(), "VERIF_TIER=quick")
 			out, err := cmd.CombinedOutput()
 			code := 0
+			if ctx.Err() != nil {
+				mr.Status = "analysis error (not finished within 6 minutes)"
+				return
+			}
 			if ee, ok := err.(*exec.ExitError); ok {
 				code = ee.ExitCode()
 			} else if err != nil {
